@@ -13,6 +13,8 @@ import (
 
 	"github.com/RoaringBitmap/roaring/v2"
 
+	simrt "verifsimrt"
+
 	"verif/model"
 	"verif/simio"
 )
@@ -22,6 +24,12 @@ type Step struct {
 	Op string   `json:"op"`
 	S  []int    `json:"s,omitempty"` // object slots
 	A  []uint64 `json:"a,omitempty"` // numeric arguments (op specific)
+	// schedule of this step under the deterministic scheduler (instrumented builds):
+	// seed + policy decide every goroutine choice; SC, when present, is the explicit
+	// (minimised) choice list and takes precedence.
+	SS uint64  `json:"ss,omitempty"`
+	SP string  `json:"sp,omitempty"`
+	SC []int32 `json:"sc,omitempty"`
 }
 
 func (s Step) String() string { return fmt.Sprintf("%s%v%v", s.Op, s.S, s.A) }
@@ -85,6 +93,7 @@ type Stats struct {
 	States         map[uint64]struct{}
 	Pairings       map[string]int
 	GCs            int
+	SchedRuns      int
 	Decisions      int
 	Interleavings  map[uint64]struct{}
 	DiskTuples     map[string]int
@@ -185,6 +194,9 @@ func faultAddr(r interface{}) (uintptr, bool) {
 func (w *World) try(tag string, f func()) (panicked bool) {
 	defer func() {
 		if r := recover(); r != nil {
+			if simrt.IsAbort(r) {
+				panic(r) // the scheduler is unwinding a deadlocked simulation
+			}
 			panicked = true
 			w.panicked = true
 			if addr, ok := faultAddr(r); ok {
@@ -588,6 +600,7 @@ func (w *World) recordState() {
 			mix(0xFFFF)
 		}()
 	}
+	mix(w.X.bsiState())
 	mix(HashStr(w.curOp))
 	w.St.States[h] = struct{}{}
 }
@@ -646,10 +659,20 @@ func (w *World) Exec(st *Step) {
 		return
 	}
 	w.St.Effective++
-	def.exec(w, st)
+	if simrt.Instrumented && !def.selfSched {
+		res := simrt.Run(simrt.Config{Seed: st.SS, Policy: st.SP, Choices: st.SC}, func() { def.exec(w, st) })
+		w.schedResult(&res, "")
+	} else {
+		def.exec(w, st)
+	}
 	w.afterStep(def.tag)
 	w.step++
 }
+
+var schedPolicies = []string{"random", "random", "random", "pct", "pct", "lowest", "starve"}
+
+// PendingLen is the number of queued scenario steps.
+func (w *World) PendingLen() int { return len(w.pending) }
 
 // Generate draws the next step from the seed and the current state. Scenario
 // generators may queue follow-up steps (w.pending), which are delivered first.
@@ -657,6 +680,8 @@ func (w *World) Generate(r *Rng) Step {
 	if len(w.pending) > 0 {
 		st := w.pending[0]
 		w.pending = w.pending[1:]
+		st.SS = r.U64()
+		st.SP = schedPolicies[r.Intn(len(schedPolicies))]
 		return st
 	}
 	prof := profiles[w.Cfg.Profile]
@@ -670,10 +695,48 @@ func (w *World) Generate(r *Rng) Step {
 			if st.Op == "" {
 				st.Op = name
 			}
+			st.SS = r.U64()
+			st.SP = schedPolicies[r.Intn(len(schedPolicies))]
 			return st
 		}
 	}
 	return Step{Op: "gc"}
+}
+
+// schedResult turns what the scheduler observed into C12 postconditions and statistics.
+func (w *World) schedResult(res *simrt.Result, what string) (bad bool) {
+	w.St.Decisions += res.Decisions
+	w.St.SchedRuns++
+	if res.Switches >= 2 && res.Decisions > 0 {
+		w.St.Interleavings[res.Fingerprint] = struct{}{}
+	}
+	for k, v := range res.Probes {
+		w.St.Probes["sched:"+k] += v
+	}
+	tag := "C12"
+	if w.curTag != "" && w.curTag != "C12" {
+		tag = "C12+" + w.curTag
+	}
+	if res.Deadlock != "" {
+		w.fail(tag, "deadlock", "deadlock", fmt.Sprintf("%s%s: nothing can run and the call has not returned; parked: %s", w.curOp, what, res.Deadlock))
+		w.panicked = true
+		bad = true
+	}
+	if len(res.Leaked) > 0 {
+		w.fail(tag, "goroutine-leak", "goroutine left behind", fmt.Sprintf("%s%s: the call returned but %d goroutine(s) can never run again: %v", w.curOp, what, len(res.Leaked), res.Leaked))
+		bad = true
+	}
+	for _, p := range res.Panics {
+		w.fail(tag, "goroutine-panic", p, fmt.Sprintf("%s%s: panic in a goroutine the call started: %s", w.curOp, what, p))
+		w.panicked = true
+		bad = true
+	}
+	if res.RootPanic != nil {
+		w.fail(tag, "panic", fmt.Sprint(res.RootPanic), fmt.Sprintf("%s%s: %v", w.curOp, what, res.RootPanic))
+		w.panicked = true
+		bad = true
+	}
+	return bad
 }
 
 // GC is the collector on a leash.
